@@ -333,6 +333,15 @@ func (s *zzSink) deadLetterFor(seq int) bool {
 
 // ZZ_C10_Seq: spawn / duplicate spawn / stop / respawn histories on one id
 // (sequential, fake inbox so that pending messages can be inspected).
+// zzDiesAtStart panics in every Started.
+type zzDiesAtStart struct{}
+
+func (zzDiesAtStart) Receive(c *Context) {
+	if _, ok := c.Message().(Started); ok {
+		panic("zz-dies-at-start")
+	}
+}
+
 func ZZ_C10_Seq() {
 	K := zzrt.Param("K")
 	e, sink := zzBareEngine()
@@ -354,7 +363,20 @@ func ZZ_C10_Seq() {
 	}
 	sentN := 0
 	for s := 0; s < K; s++ {
-		switch zzrt.NondetIntn("op", 4) {
+		switch zzrt.NondetIntn("op", 5) {
+		case 4: // an actor spawned under the id dies during its own start (Started panics until the restart budget
+			// of 0 or 1 is used up) on a real inbox that never ran: it never becomes live, the id is free again
+			if cur != nil {
+				zzrt.Assume(false)
+			}
+			opts := DefaultOpts(func() Receiver { return &zzDiesAtStart{} })
+			opts.Kind, opts.ID = "k", "i"
+			opts.MaxRestarts = int32(zzrt.Choose(2))
+			opts.RestartDelay = 0
+			dupBefore := sink.count(5)
+			e.SpawnProc(newProcess(e, opts))
+			zzrt.Assert(sink.count(5) == dupBefore, "C10:spurious-ActorDuplicateIdEvent")
+			zzrt.Reach("died-during-its-own-start")
 		case 0: // spawn the id
 			p, f := mk()
 			before, dupBefore := produced, sink.count(5)
